@@ -175,6 +175,7 @@ def nocell(op, cols, rows, props, tabs_k="SYM", alt=2, sb=1, suffix="", mem=8, o
 
 
 MARGIN_OPS = {"LfOffMargin": "bottom", "NelOffMargin": "bottom", "RiOffMargin": "top"}
+C02_QUICK_OPS = ("Cuu", "Cud", "Vpa")
 for op in CURSOR_OPS:
     if op in MARGIN_OPS:
         # these reach the scrolling code when on the margin: cursor row and margins are constants of the
@@ -183,11 +184,11 @@ for op in CURSOR_OPS:
             for row in (0, 1, 2):
                 if row == (bottom if MARGIN_OPS[op] == "bottom" else top):
                     continue
-                quick = (row, top, bottom) in (((2, 1, 2), (1, 0, 2)) if op == "RiOffMargin" else ((0, 1, 2), (2, 0, 1)))
-                nocell(op, 4, 3, {"C05": Q if quick else T, "C02": T, "C01": T}, geo=(row, top, bottom), optional=SMALL_OPT)
+                quick = (row, top, bottom) in (((2, 1, 2), (1, 0, 2), (0, 1, 2)) if op == "RiOffMargin" else ((0, 1, 2), (2, 0, 1)))
+                nocell(op, 4, 3, {"C05": Q if quick else T, "C02": T, "C01": Q if (op, row, top) == ("RiOffMargin", 0, 1) else T}, geo=(row, top, bottom), optional=SMALL_OPT)
         nocell(op, 1, 1, {"C05": T}, geo=(0, 0, 0), optional=SMALL_OPT + ["missing / zero parameter", "parameter 65535"]) if False else None
         continue
-    nocell(op, 4, 3, {"C05": Q, "C02": T, "C17": T, "C16": T, "C01": T})
+    nocell(op, 4, 3, {"C05": Q, "C02": Q if op in C02_QUICK_OPS else T, "C17": T, "C16": T, "C01": T})
     nocell(op, 1, 1, {"C05": Q if op in ("Cup", "Decstbm") else T, "C01": Q if op in ("Cup", "Decstbm", "Cha") else T}, optional=SMALL_OPT)
     nocell(op, 5, 5, {"C05": T, "C02": T}, sb=0, alt=0)
 for op in TAB_MOVE_OPS:
@@ -300,7 +301,7 @@ def edit(op, cols, rows, props, sb=1, alt=2, mem=8, crow="SYM", ccol="SYM", suff
 
 
 for op in ("Ich", "Dch"):
-    edit(op, 3, 2, {"C07": Q, "C15": Q, "C02": T, "C08": T, "C17": T, "C01": T})
+    edit(op, 3, 2, {"C07": Q, "C15": Q, "C02": T, "C08": Q if op == "Ich" else T, "C17": T, "C01": T})
     edit(op, 4, 3, {"C07": T, "C15": T, "C02": T})
     edit(op, 1, 1, {"C07": T, "C01": Q}, sb=0)
 edit("Decaln", 2, 2, {"C07": Q, "C15": Q, "C01": T})
